@@ -475,6 +475,45 @@ func runC07(ctx *core.Ctx) {
 			}
 			// and after the tail write (so a failed tail is not 'rolled back' over untouched contents) is not required
 			ctx.Check(ok, "A3", "lockedfile.Transform#rollback", rb.Pos(), "the roll-back is registered before every overwrite of existing bytes")
+			// the roll-back needs the file open and locked: defers run last-in first-out, so a Close deferred
+			// after the roll-back (or called directly later on) closes and unlocks the file first
+			{
+				closesFile := func(cc *ssa.CallCommon) bool {
+					if ssax.CalleeName(cc) == "(*"+lfPkg+".File).Close" {
+						return true
+					}
+					var fn *ssa.Function
+					switch x := cc.Value.(type) {
+					case *ssa.MakeClosure:
+						fn, _ = x.Fn.(*ssa.Function)
+					case *ssa.Function:
+						fn = x
+					}
+					found := false
+					if fn != nil && fn.Blocks != nil && fn.Pkg == tf.Pkg {
+						graph(p, fn).Instrs(func(j ssa.Instruction) {
+							if c2 := ssax.CallOf(j); c2 != nil && ssax.CalleeName(c2) == "(*"+lfPkg+".File).Close" {
+								found = true
+							}
+						})
+					}
+					return found
+				}
+				late := ""
+				g.Instrs(func(i ssa.Instruction) {
+					ci, isCall := i.(ssa.CallInstruction)
+					if !isCall || i == ssa.Instruction(rb) || !g.Dominates(rb, i) {
+						return
+					}
+					if _, isGo := i.(*ssa.Go); isGo {
+						return
+					}
+					if closesFile(ci.Common()) {
+						late = p.Pos(i.Pos())
+					}
+				})
+				ctx.Check(late == "", "A3", "lockedfile.Transform#rollback-before-close", rb.Pos(), "nothing registered or called after the roll-back closes the file (the roll-back would then write to a closed, unlocked file) %s", late)
+			}
 		}
 		// overwrite branches: grow/equal writes new[:len(old)]; shrink writes new then truncates to len(new) after success
 		// what is written is the whole of new whenever len(new) < len(old): new itself, new[:len(new)],
